@@ -27,7 +27,7 @@ PY = sys.executable
 
 # property -> list of (engine, share of runs)
 PROP_STREAMS = {
-    "C05": [("e1", 1.0)],
+    "C05": [("e1", 0.6), ("e2", 0.4)],
     "C06": [("e4", 1.0)],
     "C07": [("e1", 1.0)],
     "C12": [("e1", 1.0)],
@@ -46,6 +46,7 @@ TIER = {
                  "shrink_s": 120},
 }
 RUN_TIMEOUT_S = 120
+MAX_SHRINK_JOBS = 12
 
 
 def _engine(name):
@@ -73,11 +74,14 @@ def _worker_run(args):
         rs = core.run_seed(seed, engine_name, prop, index)
         t0 = time.perf_counter()
         trace = eng.generate(rs, tier, prop)
+        import hashlib
+        tdig = hashlib.sha256(core.canon_json(trace).encode()).hexdigest()
         trace["hashseed"] = int(os.environ.get("PYTHONHASHSEED", "0"))
         trace["run_index"] = index
         res = eng.execute(trace)
         out = res.to_json()
-        out.update(engine=engine_name, index=index, run_seed=rs, wall=time.perf_counter() - t0)
+        out.update(engine=engine_name, index=index, run_seed=rs, wall=time.perf_counter() - t0,
+                   trace_digest=tdig)
         mine = [v for v in out["violations"] if v["prop"] == prop]
         out["others"] = sorted({v["sig"] for v in out["violations"] if v["prop"] != prop})
         out["violations"] = mine
@@ -278,27 +282,51 @@ def check_main(a):
         results.sort(key=lambda r: (r["engine"], r["index"]))
 
         # ---- violations ------------------------------------------------------------------
-        known = core.known_signatures(prop)
+        known = core.known_findings(prop)
         by_sig = {}
         for r in results:
             for v in r["violations"]:
                 by_sig.setdefault(v["sig"], []).append(r)
         new_violations = []
         known_hit = []
+        jobs = []   # (sig, run, finding or None)
+        only = os.environ.get("VERIF_ONLY_SIG")
         for sig in sorted(by_sig):
-            if sig in known:
-                known_hit.append(sig)
+            if only and only not in sig:
                 continue
-            # smallest failing trace first
-            cands = sorted(by_sig[sig], key=lambda r: (len(json.dumps(r.get("trace", {}))), r["index"]))
-            r = cands[0]
-            rp = _shrink_and_write(prop, sig, r, scratch, cfg["shrink_s"], seed)
+            runs = sorted(by_sig[sig], key=lambda r: (len(json.dumps(r.get("trace", {}))), r["index"]))
+            finding = known.get(sig)
+            if finding is None:
+                jobs.append((sig, runs[0], None))
+                continue
+            matched = [r for r in runs if core.finding_matches(finding, r.get("trace", {}))]
+            unmatched = [r for r in runs if not core.finding_matches(finding, r.get("trace", {}))]
+            if unmatched:
+                jobs.append((sig, unmatched[0], None))      # same class, different circumstances
+            if matched:
+                if tier == "thorough":
+                    jobs.append((sig, matched[0], finding))     # confirm on the minimised trace
+                else:
+                    known_hit.append(sig)
+        jobs = jobs[:MAX_SHRINK_JOBS] + [(s_, r_, f_) for (s_, r_, f_) in jobs[MAX_SHRINK_JOBS:] if f_ is not None]
+        from concurrent.futures import ThreadPoolExecutor
+        with ThreadPoolExecutor(max_workers=min(8, max(1, len(jobs)))) as tp:
+            futs = [tp.submit(_shrink_and_write, prop, sig, r, scratch, cfg["shrink_s"], seed, k)
+                    for k, (sig, r, f) in enumerate(jobs)]
+            outs = [f.result() for f in futs]
+        for (sig, r, finding), rp in zip(jobs, outs):
             if rp is None:
                 herrs.append("non-reproducible violation %s (engine %s index %d)" % (sig, r["engine"], r["index"]))
-            else:
-                new_violations.append((sig, rp))
+                continue
+            if finding is not None:
+                mini = json.load(open(rp))["trace"]
+                if core.finding_matches(finding, mini):
+                    known_hit.append(sig)
+                    os.remove(rp)
+                    continue
+            new_violations.append((sig, rp))
         for sig in known_hit:
-            print("KNOWN-FINDING: property=%s %s (%s; %d runs)" % (prop, sig, known[sig].get("where", ""), len(by_sig[sig])))
+            print("KNOWN-FINDING: property=%s %s (%s; %d runs)" % (prop, sig, known[sig].get("what", ""), len(by_sig[sig])))
         for sig, rp in new_violations:
             print("VIOLATION property=%s replay=%s" % (prop, rp))
             print("  signature: %s" % sig)
@@ -321,12 +349,12 @@ def check_main(a):
     return status
 
 
-def _shrink_and_write(prop, sig, r, scratch, shrink_s, seed):
+def _shrink_and_write(prop, sig, r, scratch, shrink_s, seed, k=0):
     trace = r["trace"]
     hs = str(trace.get("hashseed", 0))
     env = dict(os.environ, PYTHONHASHSEED=hs)
-    job = os.path.join(scratch, "shrink-job.json")
-    out = os.path.join(scratch, "shrink-out.json")
+    job = os.path.join(scratch, "shrink-job%d.json" % k)
+    out = os.path.join(scratch, "shrink-out%d.json" % k)
     json.dump({"trace": trace, "prop": prop, "sig": sig}, open(job, "w"))
     if os.path.exists(out):
         os.remove(out)
